@@ -1125,60 +1125,83 @@ func c15R7(c *Ctx) {
 		return
 	}
 	n := 0
-	for _, b := range fn.Blocks {
-		for _, in := range b.Instrs {
-			ta, ok := in.(*ssa.TypeAssert)
-			if !ok || !ta.CommaOk {
+	// the per-record body (assertion, copy, PackRR) may live in packInto or in an unexported
+	// helper it was extracted into: the table is read wherever the assertion is, and "the
+	// selected OPT" is then the helper parameter that every call binds to a parameter of packInto
+	for _, g := range scopeFuncs(fn) {
+		var acts [][]*Expr
+		if top := TopLevel(g); top != fn {
+			acts = helperActivations(fn, top)
+			if len(acts) == 0 {
 				continue
 			}
-			pt, ok := ta.AssertedType.(*types.Pointer)
-			if !ok {
-				continue
-			}
-			nm, ok := pt.Elem().(*types.Named)
-			if !ok || nm.Obj().Name() != "OPT" {
-				continue
-			}
-			n++
-			isOK := func(e *Expr) bool {
-				e = strip(e)
-				return e != nil && e.K == EExtract && e.Idx == 1 && e.X != nil && e.X.V == ssa.Value(ta)
-			}
-			isO := func(e *Expr) bool {
-				e = strip(e)
-				return e != nil && e.K == EExtract && e.Idx == 0 && e.X != nil && e.X.V == ssa.Value(ta)
-			}
-			isSel := func(e *Expr) bool { e = strip(e); return e != nil && e.K == EParam }
-			atoms := []CmpAtom{{Name: "is *dns.OPT", Lhs: isOK, Op: token.ILLEGAL}, {Name: "o == opt", Lhs: isO, Rhs: isSel, Op: token.EQL}}
-			key := R + "|packInto|selected OPT substitution"
-			tab, why := DecisionTable(pointAfter(in), atoms, func(x ssa.Instruction) string {
-				if isFieldStore(x, optF, nil) {
-					return "copy"
+		}
+		for _, b := range g.Blocks {
+			for _, in := range b.Instrs {
+				ta, ok := in.(*ssa.TypeAssert)
+				if !ok || !ta.CommaOk {
+					continue
 				}
-				if isPlainCallTo(packRR)(x) {
-					return "plain"
+				pt, ok := ta.AssertedType.(*types.Pointer)
+				if !ok {
+					continue
 				}
-				return ""
-			})
-			if why != "" {
-				c.violation(R, key, instrPos(in), "the substitution of the selected OPT depends on something other than the type assertion and the pointer identity: "+why)
-				continue
-			}
-			bad := ""
-			for row := range tab {
-				A, B := row&1 != 0, row&2 != 0
-				want := "plain"
-				if A && B {
-					want = "copy"
+				nm, ok := pt.Elem().(*types.Named)
+				if !ok || nm.Obj().Name() != "OPT" {
+					continue
 				}
-				if tab[row] != want {
-					bad = fmt.Sprintf("is-OPT=%v, same pointer=%v → %s (want %s)", A, B, tab[row], want)
+				n++
+				isOK := func(e *Expr) bool {
+					e = strip(e)
+					return e != nil && e.K == EExtract && e.Idx == 1 && e.X != nil && e.X.V == ssa.Value(ta)
 				}
-			}
-			if bad != "" {
-				c.violation(R, key, instrPos(in), "selected OPT substitution table is wrong: "+bad)
-			} else {
-				c.ok(R, key, instrPos(in), "copy ⇔ (rr is *dns.OPT ∧ rr == selected OPT), in every section")
+				isO := func(e *Expr) bool {
+					e = strip(e)
+					return e != nil && e.K == EExtract && e.Idx == 0 && e.X != nil && e.X.V == ssa.Value(ta)
+				}
+				isSel := func(e *Expr) bool {
+					e = strip(e)
+					if e == nil || e.K != EParam {
+						return false
+					}
+					for _, args := range acts {
+						if a := strip(inActivation(e, args)); a == nil || a.K != EParam {
+							return false
+						}
+					}
+					return true
+				}
+				atoms := []CmpAtom{{Name: "is *dns.OPT", Lhs: isOK, Op: token.ILLEGAL}, {Name: "o == opt", Lhs: isO, Rhs: isSel, Op: token.EQL}}
+				key := R + "|packInto|selected OPT substitution"
+				tab, why := DecisionTable(pointAfter(in), atoms, func(x ssa.Instruction) string {
+					if isFieldStore(x, optF, nil) {
+						return "copy"
+					}
+					if isPlainCallTo(packRR)(x) {
+						return "plain"
+					}
+					return ""
+				})
+				if why != "" {
+					c.violation(R, key, instrPos(in), "the substitution of the selected OPT depends on something other than the type assertion and the pointer identity: "+why)
+					continue
+				}
+				bad := ""
+				for row := range tab {
+					A, B := row&1 != 0, row&2 != 0
+					want := "plain"
+					if A && B {
+						want = "copy"
+					}
+					if tab[row] != want {
+						bad = fmt.Sprintf("is-OPT=%v, same pointer=%v → %s (want %s)", A, B, tab[row], want)
+					}
+				}
+				if bad != "" {
+					c.violation(R, key, instrPos(in), "selected OPT substitution table is wrong: "+bad)
+				} else {
+					c.ok(R, key, instrPos(in), "copy ⇔ (rr is *dns.OPT ∧ rr == selected OPT), in every section")
+				}
 			}
 		}
 	}
